@@ -48,6 +48,7 @@ type c12DashCase struct {
 	Where     string        `json:"where,omitempty"`   // begin | rule | end
 	Twice     bool          `json:"twice,omitempty"`
 	NameForm  int           `json:"name_form,omitempty"`
+	Entry     string        `json:"entry,omitempty"` // public entry point, see c12Entries ("" = interp.ExecProgram)
 }
 
 const c12DashStdin = "STDIN1\nSTDIN2\nSTDIN3\n"
@@ -222,7 +223,7 @@ func c12DashRun(cs *c12DashCase, d string) (obs c12DashObs) {
 			return os.OpenFile(name, flag, perm)
 		}
 	}
-	obs.Res = vh.ExecProg(prog, cfg)
+	obs.Res = c12ExecFresh(cs.Entry, prog, cfg)
 	obs.Stderr = errw.String()
 	return obs
 }
@@ -237,8 +238,8 @@ func c12DashOracle(cs *c12DashCase, obs *c12DashObs) (bad []c12Verdict) {
 	// the walk the property prescribes: which operand stops the run, which sources deliver records before that
 	stop, stopWhy := -1, "" // index into operands
 	nonSkipped := 0
-	firstSource := ""                  // stdin | file: what delivers the first record
-	stdinOperandBeforeStop := false    // an operand "-" (or the default) is reached before the stop
+	firstSource := ""                    // stdin | file: what delivers the first record
+	stdinOperandBeforeStop := false      // an operand "-" (or the default) is reached before the stop
 	filesBeforeStop := map[string]bool{} // file operands read before the stop
 	for i, a := range operands {
 		cl := c12DashClass(a)
@@ -430,6 +431,9 @@ func c12DashCorpus() []c12DashCase {
 					res = append(res, c12DashCase{Stream: "dash", Shape: sh.Name, NoExec: mask&1 != 0, NoWrites: mask&2 != 0, NoReads: mask&4 != 0,
 						Hook: hook, StdinFile: n%3 == 0, Args: sh.Args, Edits: sh.Edits, Argc: sh.Argc,
 						Getline: v.g, Where: v.w, Twice: v.twice, NameForm: v.form})
+					if n%4 == 0 { // every fourth case through one of the Interpreter entry points, rotating
+						res[len(res)-1].Entry = c12Entries[(n/4+n/28)%len(c12Entries)]
+					}
 				}
 			}
 		}
@@ -442,6 +446,9 @@ func c12DashRandom(c *vh.Ctx) c12DashCase {
 	m := r.Intn(8)
 	cs := c12DashCase{Stream: "dash", Shape: "random", NoExec: m&1 != 0, NoWrites: m&2 != 0, NoReads: m&4 != 0 || r.Intn(3) == 0,
 		Hook: r.Intn(2) == 0, StdinFile: r.Intn(2) == 0, NameForm: r.Intn(4)}
+	if r.Intn(2) == 0 {
+		cs.Entry = c12Entries[r.Intn(len(c12Entries))]
+	}
 	pool := []string{"-", "-", "-", "", "x=7", "in0", "in1", "dd/-", "m0", "y=-", "-=1"}
 	for i, n := 0, r.Intn(6); i < n; i++ {
 		cs.Args = append(cs.Args, pool[r.Intn(len(pool))])
@@ -498,8 +505,8 @@ func runC12Dash(c *vh.Ctx, replay *c12DashCase) {
 	os.RemoveAll(d)
 	for i := range cases {
 		cs := &cases[i]
-		key := fmt.Sprintf("dash|%v%v%v%v%v|%q|%v|%d|%s|%s|%v|%d", cs.NoExec, cs.NoWrites, cs.NoReads, cs.Hook, cs.StdinFile, cs.Args, cs.Edits, cs.Argc,
-			cs.Getline, cs.Where, cs.Twice, cs.NameForm)
+		key := fmt.Sprintf("dash|%v%v%v%v%v|%q|%v|%d|%s|%s|%v|%d|%s", cs.NoExec, cs.NoWrites, cs.NoReads, cs.Hook, cs.StdinFile, cs.Args, cs.Edits, cs.Argc,
+			cs.Getline, cs.Where, cs.Twice, cs.NameForm, cs.Entry)
 		hasDash := false
 		for _, a := range cs.effOperands() {
 			if a == "-" {
@@ -514,6 +521,7 @@ func runC12Dash(c *vh.Ctx, replay *c12DashCase) {
 			gl = cs.Getline + "@" + cs.Where
 		}
 		c.Hit("stream:dash")
+		c.Hit("dash:entry:" + map[bool]string{true: "execprogram", false: cs.Entry}[cs.Entry == ""])
 		c.Hit("dash:flags:" + flags + ",hook=" + c12B(cs.Hook))
 		c.Hit("dash:shape:" + cs.Shape)
 		c.Hit("dash:getline-from-dash:" + gl)
